@@ -6,4 +6,6 @@ def have(ids):
     return [i for i in ids if os.path.exists(os.path.join(_d, i + '.py'))]
 LAYERS = have(['Lip4', 'Ludp', 'Leth', 'Ldot1q', 'Licmp4', 'Ltcp', 'Lsctp', 'Lip6', 'Licmp6', 'Lgre',
                'Larp', 'Lllc', 'Lvxlan', 'Lmpls', 'Lpppoe', 'Lppp', 'Lloopback', 'Leapol', 'Lipsec', 'Lvrrp', 'Lgeneve', 'Ldns', 'Ldiameter', 'Lntp', 'Ligmp', 'Lbfd', 'Lradius', 'Ldhcp4', 'Letherip', 'Lfddi', 'Ludplite', 'Lerspan2', 'Lgtp', 'Lmodbus', 'Lrudp', 'Lusb'])
+# every other layer sub-check present (lib/props/L<name>.py), in name order: sub-checks added later need no edit here
+LAYERS += sorted(f[:-3] for f in os.listdir(_d) if f.startswith('L') and f.endswith('.py') and f[:-3] not in LAYERS)
 SWEEP = have(['Sweep'])
